@@ -1,5 +1,6 @@
 import Bng.Drv.Common
 import Bng.Model.PeerCluster
+import Bng.Model.PeerClusterFault
 /-
   bngdrv component `peercluster`: several real pool.PeerPool nodes of one process, connected by an
   in-memory HTTP transport, all configured with the same peers and the same pool network.
@@ -12,6 +13,9 @@ import Bng.Model.PeerCluster
     stats <i>         => <allocated> <available> <total>
     burst <i> s3 <k>  => as alloc | mixed <answer>,<answer>,… served=<j> ranked=…
     audit <i>         => ok | bad lost=<n> stale=<n> norev=<n> dup=<n>
+    fault resp|status|body on|off|once => ok      the RESPONSE of forwarded requests is lost after the peer handled them
+                                                   (Do error | 502 | truncated JSON body - allocations only); then
+    alloc / release   => lost served=<j> ranked=…  the requester got an error (`Bng.PeerClusterFault`; suspended for a burst)
 
   `ranked` (the rendezvous ranking node i computes) and `owner` (GetOwner) are taken from the
   implementation's answer and fed to the model as inputs; `served` (getHealthyOwner) is computed by the model.
@@ -25,9 +29,13 @@ import Bng.Model.PeerCluster
                 → finding KF-peerpool-failover-orphan, only if one of the two routings involved was a
                   fallback routing: served node ≠ top of the ranking AND the MODEL's health view of the entry
                   node marks the top of the ranking unhealthy at that moment
+    count / total / exhaustion / agree at a node that allocated in a request whose ANSWER WAS LOST
+                → finding KF-peerpool-lost-response, only if the figure is off by exactly the number of the node's
+                  (node, subscriber) pairs in `PeerClusterFault.FState.pending` (Stats, exhaustion), resp. the
+                  subscriber asked about is such a pair (Get)
 -/
 namespace Bng.Drv.PeerClusterDrv
-open Bng Bng.Drv Bng.FreeList Bng.PeerCluster
+open Bng Bng.Drv Bng.FreeList Bng.PeerCluster Bng.PeerClusterFault
 
 structure Holding where
   addr : Nat
@@ -42,6 +50,11 @@ structure St where
   /-- per node: subscriber ↦ holding (with how it was routed) -/
   holds : AMap Nat (AMap Nat Holding) := []
   n : Nat := 0
+  /-- the books of `Bng.PeerClusterFault`: the armed response fault, what the MODEL's requesters were told, and the
+      (node, subscriber) pairs whose allocation answer was lost (clause of KF-peerpool-lost-response) -/
+  fault : Option Fault := none
+  told : AMap (Nat × Nat) Nat := []
+  pending : List (Nat × Nat) := []
 
 def parseList (s : String) : Option (List Nat) :=
   if s == "-" then some [] else (s.splitOn ",").mapM (·.toNat?)
@@ -75,9 +88,30 @@ def holderElsewhere (st : St) (j k a : Nat) : Option (Nat × Nat) :=
 
 def orphanClause (a b : Bool) : String := if a || b then "KF-peerpool-failover-orphan" else "none"
 
-def step (st : St) (toks : List String) (impl : String) : St × LineResult :=
+def fstate (st : St) (m : PeerCluster.State) : FState := { s := m, fault := st.fault, told := st.told, pending := st.pending }
+def withF (st : St) (fs : FState) : St :=
+  { st with model := some fs.s, fault := fs.fault, told := fs.told, pending := fs.pending }
+
+/-- number of subscribers for which node j allocated in a request whose answer was lost (and nobody was told since) -/
+def pendingAt (st : St) (j : Nat) : Nat := (st.pending.filter (·.1 == j)).length
+
+def lostClause (b : Bool) : String := if b then "KF-peerpool-lost-response" else "none"
+
+def showF (ranked : List Nat) : FObs → String
+  | .lost j => s!"lost served={j} ranked={showList ranked}"
+  | .plain (.served j fo) => s!"{flObs fo} served={j} ranked={showList ranked}"
+  | _ => "badop"
+
+def stepB (burst : Bool) (st : St) (toks : List String) (impl : String) : St × LineResult :=
   let itoks := splitTokens impl
   match toks with
+  | ["fault", kind, mode] =>
+    let k := match kind with | "resp" => some Kind.resp | "status" => some Kind.status | "body" => some Kind.body | _ => none
+    match st.model, k, mode with
+    | some _, some k, "on" => ({ st with fault := some { kind := k, once := false } }, { modelObs := "ok" })
+    | some _, some k, "once" => ({ st with fault := some { kind := k, once := true } }, { modelObs := "ok" })
+    | some _, some _, "off" => ({ st with fault := none }, { modelObs := "ok" })
+    | _, _, _ => (st, { modelObs := "badop" })
   | ["new", nw, o, g, n] =>
     match parseHex nw, o.toNat?, parseHex g, n.toNat? with
     | some nw, some o, some g, some n =>
@@ -89,11 +123,10 @@ def step (st : St) (toks : List String) (impl : String) : St × LineResult :=
   | ["alloc", i, k] =>
     match st.model, i.toNat?, parseTagged 's' k, itoks.getLast? >>= kv "ranked=" >>= parseList with
     | some m, some i, some k, some ranked =>
-      let (m', o) := PeerCluster.step m (.alloc i k ranked)
-      let shown := match o with
-        | .served j fo => s!"{flObs fo} served={j} ranked={showList ranked}"
-        | _ => "badop"
-      let st := { st with model := some m' }
+      let (fs', fo) := stepF (fstate st m) (if burst then .burst i k ranked else .plain (.alloc i k ranked))
+      let shown := showF ranked fo
+      let st0 := st
+      let st := withF st fs'
       match itoks with
       | ["ok", a, sv, _] =>
         match parseHex a, kv "served=" sv >>= (·.toNat?) with
@@ -121,19 +154,28 @@ def step (st : St) (toks : List String) (impl : String) : St × LineResult :=
         match kv "served=" sv >>= (·.toNat?) with
         | some j =>
           let (_, vs) := Spec.mcheck st.mgeo (nodeMst st j) (.pool .exhausted)
-          (st, { modelObs := shown, viols := vs.map fun (n, d) => (n, "none", d) })
+          -- node j is full BECAUSE of the addresses it holds for subscribers whose answer was lost
+          let p := pendingAt st0 j
+          let cl := lostClause (p > 0 && (nodeMst st j).mon.length + p ≥ st.mgeo.usable)
+          (st, { modelObs := shown, viols := vs.map fun (n, d) => (n, if n == "exhaustion" then cl else "none", d) })
         | none => (st, { modelObs := shown })
       | _ => (st, { modelObs := shown })
     | _, _, _, _ => (st, { modelObs := "badop" })
   | ["release", i, k] =>
     match st.model, i.toNat?, parseTagged 's' k, itoks.getLast? >>= kv "ranked=" >>= parseList with
     | some m, some i, some k, some ranked =>
-      let (m', o) := PeerCluster.step m (.release i k ranked)
-      let shown := match o with
-        | .served j fo => s!"{flObs fo} served={j} ranked={showList ranked}"
-        | _ => "badop"
-      let st := { st with model := some m' }
+      let (fs', fo) := stepF (fstate st m) (.plain (.release i k ranked))
+      let shown := showF ranked fo
+      let st := withF st fs'
       match itoks with
+      | ["lost", sv, _] =>
+        -- the peer released (its answer was lost): the pool monitor of that node and the holdings book follow the peer
+        match kv "served=" sv >>= (·.toNat?) with
+        | some j =>
+          let (ms', _) := Spec.mcheck st.mgeo (nodeMst st j) (.pool (.released k))
+          ({ st with msts := AMap.insert st.msts j ms',
+                     holds := AMap.insert st.holds j (AMap.erase (nodeHolds st j) k) }, { modelObs := shown })
+        | none => (st, { modelObs := shown })
       | ["ok", sv, _] =>
         match kv "served=" sv >>= (·.toNat?) with
         | some j =>
@@ -172,7 +214,8 @@ def step (st : St) (toks : List String) (impl : String) : St × LineResult :=
             | none, none => []
           else []
         | [a, _] => if (parseHex a) == here && here.isSome then [] else
-            [("agree", "none", s!"Get(s{k}) at node {i} disagrees with what node {i} handed out")]
+            [("agree", lostClause (here.isNone && st.pending.contains (i, k)),
+              s!"Get(s{k}) at node {i} disagrees with what node {i} handed out")]
         | _ => []
       (st, { modelObs := shown, viols := v })
     | _, _, _, _ => (st, { modelObs := "badop" })
@@ -188,12 +231,21 @@ def step (st : St) (toks : List String) (impl : String) : St × LineResult :=
       let shown := match o with
         | .stats fo => flObs fo
         | _ => "badop"
-      let vs := match itoks.map (·.toNat?) with
-        | [some al, some av, some tot] => (Spec.mcheck st.mgeo (nodeMst st i) (.statsFL al av tot none)).2
+      -- figures that are off by exactly the addresses node i holds for subscribers whose answer was lost
+      let p := pendingAt st i
+      let held := (nodeMst st i).mon.length
+      let vs : List (String × String × String) := match itoks.map (·.toNat?) with
+        | [some al, some av, some tot] =>
+          (Spec.mcheck st.mgeo (nodeMst st i) (.statsFL al av tot none)).2.map fun (n, d) =>
+            (n, lostClause (p > 0 &&
+                  ((n == "count" && al == held + p) ||
+                   (n == "total" && d.startsWith "reported available" && av + held + p == st.mgeo.usable))), d)
         | _ => []
-      (st, { modelObs := shown, viols := vs.map fun (n, d) => (n, "none", d) })
+      (st, { modelObs := shown, viols := vs })
     | _, _ => (st, { modelObs := "badop" })
   | _ => (st, { modelObs := "badop" })
+
+def step (st : St) (toks : List String) (impl : String) : St × LineResult := stepB false st toks impl
 
 /-- `burst <i> s3 <k>`: k concurrent Allocate calls of one subscriber entering at node i are linearised as
     ONE allocate (Bng.Spec.C01FreeList.burst_equals_single_allocate); when the implementation's answers differ
@@ -208,12 +260,12 @@ def stepX (st : St) (toks : List String) (impl : String) : St × LineResult :=
       | ["mixed", l, sv, rk] =>
         let answers := (l.splitOn ",").map fun a =>
           if a == "exhausted" then s!"exhausted {sv} {rk}" else s!"ok {a} {sv} {rk}"
-        let first := step st ["alloc", i, k] (answers.headD "")
+        let first := stepB true st ["alloc", i, k] (answers.headD "")
         let rest := (answers.drop 1).foldl (fun (acc : St × List (String × String × String)) a =>
-          let (s', r) := step acc.1 ["alloc", i, k] a
+          let (s', r) := stepB true acc.1 ["alloc", i, k] a
           (s', acc.2 ++ r.viols)) (first.1, first.2.viols)
         (rest.1, { modelObs := first.2.modelObs, viols := rest.2 })
-      | _ => step st ["alloc", i, k] impl
+      | _ => stepB true st ["alloc", i, k] impl
     | _ => (st, { modelObs := "badop" })
   | ["audit", i] =>
     match st.model, i.toNat? with
